@@ -59,7 +59,8 @@ pub open spec fn diff_ok(out: Seq<f64>, x: Seq<f64>, n: int, fill: spec_fn(f64) 
         &&& (!nan(x[i]) && !nan(x[i - n])) ==> !nan(#[trigger] out[i]) && rv(out[i]) == rv(x[i]) - rv(x[i - n])
         &&& (nan(x[i]) || nan(x[i - n])) ==> nan(out[i])
     }
-    &&& n == 0 ==> forall|i: int| 0 <= i < x.len() ==> !nan(#[trigger] out[i]) && rv(out[i]) == 0real
+    // lag 0 is the same formula (x[i] - x[i]): zero for a valid element, null for a null one
+    &&& n == 0 ==> forall|i: int| 0 <= i < x.len() ==> (nan(x[i]) ==> nan(#[trigger] out[i])) && (!nan(x[i]) ==> !nan(out[i]) && rv(out[i]) == 0real)
 }
 
 //@fn name=vdiff crate=tea-map ctx="pub trait MapValidVec" props=C13,C09,C06 arith=C09
@@ -75,12 +76,64 @@ pub open spec fn diff_ok(out: Seq<f64>, x: Seq<f64>, n: int, fill: spec_fn(f64) 
 //@closure 3 mode=annotate params="__p: (f64, f64)" ret="(d: f64)"
 //@closure 3 spec
     ensures rv(d) == rv(__p.1) - rv(__p.0), nan(d) == (nan(__p.0) || nan(__p.1))
+//@closure 4 mode=annotate params="v: f64" ret="(d: f64)"
+//@closure 4 spec
+    ensures rv(d) == 0real, nan(d) == nan(v)
 //@at body first
     broadcast use a_real;
 //@spec
     ensures
         diff_ok(r.seq(), this.view(), n as int, |v: f64| match value { Some(f) => v == f, None => nan(v) }),   // #C13 vdiff_positional
         honest_out(&*r),                                                                                         // #C09 vdiff_preserves_length
+//@end
+
+pub open spec fn pct_ok(out: Seq<f64>, x: Seq<f64>, n: int) -> bool {
+    &&& out.len() == x.len()
+    &&& forall|i: int| 0 <= i < x.len() && vacated(x.len() as int, n, i) ==> nan(#[trigger] out[i])
+    &&& forall|i: int| 0 <= i < x.len() && !vacated(x.len() as int, n, i) ==> {
+        let ok = !nan(x[i]) && !nan(x[i - n]) && rv(x[i - n]) != 0real;
+        &&& ok ==> !nan(#[trigger] out[i]) && rv(out[i]) == rv(x[i]) / rv(x[i - n]) - 1real
+        &&& !ok ==> nan(out[i])          // null operand or zero base
+    }
+}
+pub proof fn lemma_div_self(x: real) by(nonlinear_arith)
+    requires x != 0real,
+    ensures x / x == 1real,
+{
+}
+pub open spec fn pct_pair(a: f64, b: f64, r: f64) -> bool {
+    let ok = !nan(a) && !nan(b) && rv(a) != 0real;
+    (ok ==> !nan(r) && rv(r) == rv(b) / rv(a) - 1real) && (!ok ==> nan(r))
+}
+
+//@fn name=vpct_change crate=tea-map ctx="pub trait MapValidVec" props=C13,C09,C06 arith=C09
+//@sig fn vpct_change<V: TIter<f64>>(this: &V, n: i32) -> (r: Box<It<f64>>)
+//@types T=f64
+//@replace std::iter::repeat_n => repeat_n
+//@closure 1 mode=annotate params="v: f64" ret="(c: f64)"
+//@closure 1 spec
+    ensures c == v
+//@closure 2 mode=annotate params="__p: (f64, f64)" ret="(d: f64)"
+//@closure 2 spec
+    ensures pct_pair(__p.0, __p.1, d)
+//@at closure 2 first
+    proof { ax_lits(); } broadcast use a_real, a_real_cmp;
+//@closure 3 mode=annotate params="__p: (f64, f64)" ret="(d: f64)"
+//@closure 3 spec
+    ensures pct_pair(__p.0, __p.1, d)
+//@at closure 3 first
+    proof { ax_lits(); } broadcast use a_real, a_real_cmp;
+//@closure 4 mode=annotate params="v: f64" ret="(d: f64)"
+//@closure 4 spec
+    ensures pct_pair(v, v, d)
+//@at closure 4 first
+    proof { ax_lits(); if rv(v) != 0real { lemma_div_self(rv(v)); } } broadcast use a_real, a_real_cmp;
+//@at body first
+    broadcast use a_real;
+//@spec
+    ensures
+        pct_ok(r.seq(), this.view(), n as int),        // #C13 vpct_change_positional
+        honest_out(&*r),                               // #C09 vpct_change_preserves_length
 //@end
 
 } // verus!
